@@ -181,6 +181,9 @@ func (r *Runner) DBSynced() int64 {
 	defer d.Close()
 	s, err := d.Synced()
 	if err != nil {
+		if os.Getenv("VERIF_LOG") != "" {
+			fmt.Fprintln(os.Stderr, "DBSynced:", err)
+		}
 		return -2
 	}
 	return s
